@@ -637,6 +637,53 @@ func runRoute(planPath, outPath string, seed int64) {
 				wg.Wait()
 			}
 		}
+		if p.Conc > 0 && len(pend) > 1 {
+			// duels: two requests that run DIFFERENT routes of one WebService, each sent 200 times by its own goroutine
+			// at the same time (what one of them binds must never show up in the other)
+			for _, v := range variants {
+				if v.perm != 0 {
+					continue
+				}
+				duels, maxDuels := 0, 1
+				for _, sv := range t.Services {
+					if strings.Contains(sv.Root, "{") {
+						maxDuels = 3 // variables of the root path and of the routes meet in one request
+					}
+				}
+				for i := 0; i < len(pend) && duels < maxDuels; i++ {
+					for j := i + 1; j < len(pend) && duels < maxDuels; j++ {
+						oi, oj := pend[i].outs[0], pend[j].outs[0]
+						if oi.K != "route" || oj.K != "route" || oi.Ws != oj.Ws || oi.Rt == oj.Rt || len(oi.Params)+len(oj.Params) == 0 {
+							continue
+						}
+						duels++
+						var wg sync.WaitGroup
+						var recMu sync.Mutex
+						start := make(chan struct{})
+						for _, ix := range []int{i, j} {
+							wg.Add(1)
+							go func(ix int) {
+								defer wg.Done()
+								<-start
+								var mycell *obsCell
+								for n := 0; n < 120; n++ {
+									hr, err := pend[ix].rq.httpRequest(false)
+									if err != nil {
+										return
+									}
+									o := observe(v.c, "D", hr, &mycell)
+									recMu.Lock()
+									record(pend[ix], o, []interface{}{v.router, v.perm, 0, "C"})
+									recMu.Unlock()
+								}
+							}(ix)
+						}
+						close(start)
+						wg.Wait()
+					}
+				}
+			}
+		}
 		for _, pd := range pend {
 			// one variant entry per distinct (router, perm, slash, entry)
 			for i := range pd.outs {
